@@ -151,6 +151,47 @@ class Step:
             return min(self.ev(t[1], env), self.ev(t[2], env))
         if op in MAXS and len(t) == 3:
             return max(self.ev(t[1], env), self.ev(t[2], env))
+        if self.loops and isinstance(op, str):
+            # concrete sequences (list_hooks): construction, growth and element stores of standard containers
+            if op.startswith(('new:std::vector<', 'new:std::deque<', 'new:std::list<')):
+                args_ = [a_ for a_ in t[1:] if not (isinstance(a_, tuple) and a_ and str(a_[0]).startswith('new:') and 'allocator' in str(a_[0]))]
+                if not args_:
+                    return []
+                n_ = self.ev(args_[0], env)
+                if isinstance(n_, list) and len(args_) == 1:
+                    return list(n_)
+                if isinstance(n_, int) and not isinstance(n_, bool) and 0 <= n_ <= 100000 and len(args_) <= 2:
+                    fill_ = self.ev(args_[1], env) if len(args_) == 2 else 0
+                    return [fill_] * n_
+                raise Unsupported('sequence construction %s' % (t,))
+            if op in ('.push_back', '.emplace_back') and len(t) == 3:
+                cont = env.get(self.key(t[1])) if not isinstance(t[1], tuple) or t[1][0] == '.' else None
+                if isinstance(cont, list):
+                    v = self.ev(t[2], env)
+                    cont.append(list(v) if isinstance(v, list) else v)
+                    return None
+            if op in ('.reserve', '.shrink_to_fit') and isinstance(env.get(self.key(t[1])) if isinstance(t[1], str) else None, list):
+                return None
+            if op == '.clear' and isinstance(t[1], str) and isinstance(env.get(self.key(t[1])), list):
+                del env[self.key(t[1])][:]
+                return None
+            if op == '.resize' and len(t) == 3 and isinstance(t[1], str) and isinstance(env.get(self.key(t[1])), list):
+                n_ = self.ev(t[2], env)
+                cont = env[self.key(t[1])]
+                if isinstance(n_, int) and 0 <= n_ <= 100000:
+                    del cont[n_:]
+                    cont.extend([0] * (n_ - len(cont)))
+                    return None
+            if op == '=' and len(t) == 3 and isinstance(t[1], tuple) and len(t[1]) == 3 and t[1][0] in ('[]', '.at') and isinstance(t[1][1], str) and isinstance(env.get(self.key(t[1][1])), list) \
+                    and not isinstance(t[1][2], int):
+                i_ = self.ev(t[1][2], env)
+                cont = env[self.key(t[1][1])]
+                if isinstance(i_, int) and not isinstance(i_, bool):
+                    if not (0 <= i_ < len(cont)):
+                        raise Unsupported('store at %d outside a sequence of %d' % (i_, len(cont)))
+                    v = self.ev(t[2], env)
+                    cont[i_] = list(v) if isinstance(v, list) else v
+                    return v
         if op in ('=', '+=', '-=', '*=', '/=') and len(t) == 3 and isinstance(t[1], tuple) and len(t[1]) == 3 and t[1][0] in ('[]', '()') and isinstance(t[1][2], int):
             try:
                 cont = env.get(self.key(t[1][1]))
@@ -401,10 +442,12 @@ def list_hooks(step, loops=10000):
         return h
     step.hooks['++'] = incr(1, False)
     step.hooks['++u'] = incr(1, False)
-    step.hooks['u++'] = incr(1, True)
+    step.hooks['u++'] = incr(1, False)
+    step.hooks['p++'] = incr(1, True)
     step.hooks['--'] = incr(-1, False)
     step.hooks['--u'] = incr(-1, False)
-    step.hooks['u--'] = incr(-1, True)
+    step.hooks['u--'] = incr(-1, False)
+    step.hooks['p--'] = incr(-1, True)
 
     def deref(t, env):
         v = step.ev(t[1], env)
